@@ -48,8 +48,12 @@ pub fn run_case(toks: &[&str], em: &mut Emitter) {
             // the server's bytes as they come off the wire (possibly a cut or over-long frame, then end of stream)
             let offered: u32 = t[1].parse().unwrap(); let auth = t[2] == "1"; let stream = unhex(&t[3]);
             let line = t.join(" ");
+            // a fifth token: the server goes silent instead of closing (reads then fail with WouldBlock `w` / TimedOut `t`),
+            // and the bytes arrive one per read
+            let stall = t.get(4).cloned();
             let obs = guarded(|| {
-                let pipe = Pipe::new(stream, vec![]);
+                let pipe = match stall.as_deref() { Some("w") => { let p = Pipe::new(stream, vec![]).with_stall(std::io::ErrorKind::WouldBlock); p.0.borrow_mut().rcap = 1; p }
+                    Some("t") => Pipe::new(stream, vec![]).with_stall(std::io::ErrorKind::TimedOut), _ => Pipe::new(stream, vec![]) };
                 let tp = tpkt::Client::new(Link::new(Stream::Raw(pipe.clone())));
                 let mut ntlm = Ntlm::new("d".to_string(), "u".to_string(), "p".to_string());
                 let r = if auth { x224::Client::connect(tp, offered, false, Some(&mut ntlm), false, false) } else { x224::Client::connect(tp, offered, false, None, false, false) };
@@ -223,7 +227,13 @@ pub fn generate_c05(thorough: bool, seed: u64, part: (usize, usize), em: &mut Em
         let framed = refsrv::tpkt_frame(&good);
         for cut in 0..framed.len() { emit(em, format!("x224_stream 3 1 {}", hex(&framed[..cut]))); }
         for extra in &[1usize, 2, 100, 60000] { let mut f = framed.clone(); let n = f.len() + extra; f[2] = (n >> 8) as u8; f[3] = n as u8; emit(em, format!("x224_stream 3 1 {}", hex(&f))); }
+        // the same cuts on a transport with a read timeout: the server stalls, the read fails, the connect must fail
+        for cut in 0..framed.len() { for k in &["w", "t"] { emit(em, format!("x224_stream 3 1 {} {}", if cut == 0 { "-".to_string() } else { hex(&framed[..cut]) }, k)); } }
     }
+    // protocols the client does not implement, selected although (or because) a neighbouring one was offered
+    for &off in &[3u32, 1, 2, 11, 8] { for &sel in &[8u32, 9, 10, 11, 4, 16, 3, 0x0a] { for auth in 0..2 {
+        emit(em, format!("x224_conn {} {} {}", off, auth, hex(&confirm(2, 0, sel))));
+    } } }
     // every short frame header the server can open with: slow-path and fast-path actions, both fast-path
     // length forms at their minimal values, then end of stream
     for b0 in &[0x00u8, 0x03, 0x04, 0x40, 0x80, 0xc3] { for b1 in &[0u8, 1, 2, 3, 4, 5, 0x7f, 0x80, 0x81, 0x82, 0x83, 0x84, 0xff] { for b2 in &[0u8, 1, 2, 3, 4, 5, 0x7f, 0x80, 0xff] {
